@@ -23,8 +23,9 @@ D = decimal.Decimal
 
 LEVEL_NOTE = (
     "PARTIAL BY DESIGN. Proved (coq/props/C05.v, about coq/model/FmtDbc.v): the mechanisms the round trip rests on - DBC start-bit "
-    "numbering, compound identifiers, multiplex tokens, 32-character name shortening with System*LongSymbol restore (hypothesis: "
+    "numbering, compound identifiers, multiplex tokens, 32-character name shortening with System*LongSymbol restore (premise: "
     "32-character prefixes unique in their scope), ENUM key/value conversion, GenSigStartValue on the raw grid, decimal integer text, "
+    "format_float(Decimal) parsing back to the same number (str(Decimal) and Decimal(text) modelled on digit strings), "
     "and a statement-level model dbc_write/dbc_read for the core subset (ECUs, frames, senders, signals with placement/type/scaling/"
     "limits/unit/receivers, simple multiplexing, value tables, float type) with round trip and fixed point. NOT proved: that the "
     "regular expressions of dbc.load invert the string formatting of dbc.dump (text <-> statements), comments, attribute definitions/"
@@ -921,6 +922,15 @@ def run_tie(chk, C, F, tie_inputs):
                 add("startbit", 502, [[int(st["le"]), st["size"], st["start"]]], [[1, int(s2.start_bit)]], inf)
                 add("mux", 505, [[-1 if s.mux_val is None else int(s.mux_val), int(s.multiplex == "Multiplexor")]], [[1] + codes(st["mux"])], inf)
                 add("mux", 506, [codes(st["mux"])], [[1] + sig_role(s2)], inf)
+                # numbers: format_float(Decimal) is the token, Decimal(token) is what the reader gets
+                for fld in ("factor", "offset", "min", "max"):
+                    dv = getattr(s, fld)
+                    sign, digits, ex = dv.as_tuple()
+                    if not isinstance(ex, int):
+                        continue
+                    add("number", 515, [[sign, ex], [48 + x for x in digits]], [[1] + codes(st[fld])], dict(inf, field=fld, value=str(dv)))
+                    s2n, d2n, e2n = D(st[fld]).as_tuple()
+                    add("number", 516, [codes(st[fld])], [[1, s2n, e2n], [48 + x for x in d2n]], dict(inf, field=fld, token=st[fld]))
                 # GenSigStartValue (integer signals, definition without default)
                 if not s.is_float and not gss_default:
                     try:
@@ -1023,6 +1033,22 @@ def run_tie(chk, C, F, tie_inputs):
         add("int-text", 514, [codes(str(z))], [[1, z]], dict(z=z))
     for t in ["", "-", "12a", "٣"]:
         add("int-text", 514, [codes(t)], [[0]], dict(text=t))
+    from canmatrix.formats.dbc import format_float as impl_format_float
+    for t in ["0", "0.0", "-0.0", "1.0", "10.0", "1E+1", "1.50", "0.000001", "1E-7", "1.5E-7", "123456789012345678901234567890", "-1.2300E+5",
+              "0E-3", "0E+3", "1E+100", "1E-100", "9.99", "100", "0.10", "12.5E-1", "5E+2"]:
+        dv = D(t)
+        sign, digits, ex = dv.as_tuple()
+        tok = impl_format_float(dv)
+        add("number", 515, [[sign, ex], [48 + x for x in digits]], [[1] + codes(tok)], dict(value=t))
+        s2n, d2n, e2n = D(tok).as_tuple()
+        add("number", 516, [codes(tok)], [[1, s2n, e2n], [48 + x for x in d2n]], dict(token=tok))
+    for t in ["", "-", ".", "E5", "1E", "1E+", "1.2.3", "abc"]:
+        try:
+            s2n, d2n, e2n = D(t).as_tuple()
+            exp = [[1, s2n, e2n], [48 + x for x in d2n]]
+        except decimal.InvalidOperation:
+            exp = [[0]]
+        add("number", 516, [codes(t)], exp, dict(token=t))
     out = core.run_model(lines)
     bad = {}
     for (suite, inf), exp, o, ln in zip(info, expect, out, lines):
